@@ -5,7 +5,7 @@
    the working tree on every run (generated/Src_c06_flags.v): every convexity theorem carries the declaration it justifies. *)
 From Coq Require Import String.
 From Coq Require Import List ZArith QArith Reals Bool Lra.
-From LNGen Require Import Src_c06_flags.
+From LNGen Require Import Src_c06 Src_c06_flags.
 From Coquelicot Require Import Coquelicot.
 From LN Require Import C06_Defs C06_Proofs C06_Deriv.
 Import ListNotations.
@@ -127,10 +127,31 @@ Theorem C06_fn_dixon_price_declared_nonconvex :
 Proof. exact s_fn_dixon. Qed.
 Print Assumptions C06_fn_dixon_price_declared_nonconvex.
 
-Theorem C06_fn_chained_cb3I_convex_refuted :
-  declares "fn:chained_cb3I"%string "yes"%string "no"%string "0.0"%string /\ ~ cb3I_convex_full_statement.
-Proof. exact s_fn_cb3I_refuted. Qed.
-Print Assumptions C06_fn_chained_cb3I_convex_refuted.
+(* chained CB3 I / II (tie rule of /repo 114b02b: `>=`, gradient of an active piece): maximum of three convex pieces per
+   adjacent pair, summed along the chain (I); maximum of the three chain sums (II) *)
+Theorem C06_fn_chained_cb3I_convex :
+  declares "fn:chained_cb3I"%string "yes"%string "no"%string "0.0"%string /\ convex_on cb3I_v cb3I_g 0.
+Proof. exact s_fn_cb3I. Qed.
+Print Assumptions C06_fn_chained_cb3I_convex.
+
+Theorem C06_fn_chained_cb3II_convex :
+  declares "fn:chained_cb3II"%string "yes"%string "no"%string "0.0"%string /\ convex_on cb3II_v cb3II_g 0.
+Proof. exact s_fn_cb3II. Qed.
+Print Assumptions C06_fn_chained_cb3II_convex.
+
+(* the branch tests of chained_cb3I/II in the SOURCE (translated on every run) are the tests of the model *)
+Theorem C06_fn_chained_cb3_tests_as_in_source : forall v1 v2 v3 : Z,
+  Src_c06.src_c06_cb3I_test1 v1 v2 v3 = Rgeb (IZR v1) (Rmax (IZR v2) (IZR v3)) /\
+  Src_c06.src_c06_cb3I_test2 v1 v2 v3 = Rgeb (IZR v2) (Rmax (IZR v1) (IZR v3)) /\
+  Src_c06.src_c06_cb3II_test1 v1 v2 v3 = Rgeb (IZR v1) (Rmax (IZR v2) (IZR v3)) /\
+  Src_c06.src_c06_cb3II_test2 v1 v2 v3 = Rgeb (IZR v2) (Rmax (IZR v1) (IZR v3)).
+Proof. exact cb3_tests_as_in_source. Qed.
+Print Assumptions C06_fn_chained_cb3_tests_as_in_source.
+
+(* documented: the rule BEFORE the fix (strict comparisons, gradient of v3 on the tie v1 = v2 > v3) was not a sub-gradient *)
+Theorem C06_fn_chained_cb3I_old_tie_rule_refuted : ~ convex_on cb3I_v cb3I_g_old 0.
+Proof. exact s_fn_cb3I_old_rule. Qed.
+Print Assumptions C06_fn_chained_cb3I_old_tie_rule_refuted.
 
 (* ---- losses: non-negativity, locality, decision rules ---- *)
 Theorem C06_loss_nonneg :
@@ -218,4 +239,15 @@ Example C06_nonvacuous_derivative : is_derive (fun u => kr_logistic_v 1 u) 0 (- 
 Proof.
   replace (- / 2) with (kr_logistic_g 1 0); [apply d_logistic|].
   unfold kr_logistic_g. replace (- (1) * 0) with 0 by ring. rewrite exp_0. lra.
+Qed.
+
+Example C06_nonvacuous_cb3_tie :   (* on the exact tie v1 = v2 = 25 > v3 at (2,-3) the current rule returns the gradient of v1 *)
+  cb3_v1 2 (-3) = 25 /\ cb3_v2 2 (-3) = 25 /\ cb3_pa 0 2 (-3) = 32 /\ cb3_pb 0 2 (-3) = -6.
+Proof.
+  assert (E : cb3_v3 2 (-3) < 25).
+  { unfold cb3_v3. assert (exp (- (2) + -3) < 1) by (rewrite <- exp_0; apply exp_increasing; lra). lra. }
+  assert (V1 : cb3_v1 2 (-3) = 25) by (unfold cb3_v1; lra). assert (V2 : cb3_v2 2 (-3) = 25) by (unfold cb3_v2; lra).
+  assert (G : Rgeb (cb3_v1 2 (-3)) (Rmax (cb3_v2 2 (-3)) (cb3_v3 2 (-3))) = true).
+  { unfold Rgeb, Rltb. destruct (Rlt_dec _ _) as [L|L]; [|reflexivity]. exfalso. rewrite V1, V2, Rmax_left in L; lra. }
+  repeat split; auto; unfold cb3_pa, cb3_pb; rewrite G; unfold cb3_p1a, cb3_p1b; lra.
 Qed.
